@@ -62,7 +62,8 @@ class Contract:
     def __init__(self, key, prop, types=None, returns=None, requires=(), ensures=(), ensures_exc=(),
                  raises=None, modifies=(), effects=(), loops=None, locals=None, inline=False, funcs=None,
                  ghost=None, mode="prove", unroll=None, comps=None, name=None, setup=(), max_paths=None,
-                 frame=None, lock=None, replay=None, timeout_ms=None, axioms=(), post_setup=(), pure_result=None, asserts=None, nonlinear=False, unreachable_ok=()):
+                 frame=None, lock=None, replay=None, timeout_ms=None, axioms=(), post_setup=(), pure_result=None, asserts=None, nonlinear=False, unreachable_ok=(),
+                 abstract_str_order=False):
         self.key = key
         self.prop = prop if isinstance(prop, (list, tuple)) else [prop]
         self.short = name or key.split(":", 1)[1]
@@ -92,6 +93,7 @@ class Contract:
         self.post_setup = list(post_setup)
         self.asserts = dict(asserts or {})
         self.nonlinear = nonlinear
+        self.abstract_str_order = abstract_str_order
         self.unreachable_ok = list(unreachable_ok)
         self.pure_result = pure_result
         if pure_result is not None:
@@ -250,6 +252,7 @@ class Verifier:
         self.no_if_conversion = bool(os.environ.get("PYVC_NO_IFCONV"))
         self.no_patterns = bool(os.environ.get("PYVC_NO_PATTERNS"))
         self.nonlinear = bool(os.environ.get("PYVC_NONLINEAR"))
+        self.abstract_str_order = False
         self.feas_timeout_ms = 400
         self.solver_s = 0.0
         self.queries = 0
@@ -732,6 +735,7 @@ class Verifier:
         saved_to = self.timeout_ms
         saved_nl = self.nonlinear
         self.nonlinear = self.nonlinear or c.nonlinear
+        self.abstract_str_order = bool(getattr(c, 'abstract_str_order', False))
         if c.timeout_ms:
             self.timeout_ms = c.timeout_ms
         mod, cls, node = frontend.find_function(c.key, self.repo)
@@ -754,6 +758,7 @@ class Verifier:
         finally:
             self.timeout_ms = saved_to
             self.nonlinear = saved_nl
+            self.abstract_str_order = False
         if self.exits == 0 and not self.errors:
             self.errors.append("vacuous: no path reaches a function exit (contradictory requires?)")
         # reachability guard against vacuous proofs: every statement of the function must be executed on some path
